@@ -783,7 +783,7 @@ func runC04(cfg *vh.Config) error {
 	res := vh.NewResult("C04", cfg.Seed)
 	res.Rule = "objects of 2-7 properties over every field type (integer x4, string, bytes, bool, enum, key x5 formats with entity keys, float x2, date, decimal, timestamp, any, object (flatten), oneof), each plain / required / optional / array (rules, singleForm) / map, every validation rule absent / zero / boundary, both values of every boolean, list rules (filtering, default filters, sorting, default sort, searching), descriptions; non-trivial = distinct property declaration carrying at least one rule, flag, format or annotation"
 	cf := &vh.CasesFile{
-		Header: "From Coq Require Import String List NArith ZArith.\nFrom J5V.lib Require Import Outcome.\nFrom J5V.model Require Import ProtoPrintLit ProtoPrint ProtoPrintFile.\nFrom J5V.model Require Import RulesDecl RulesRead RulesEnum RulesNested RulesReadCorr.",
+		Header: "From Coq Require Import String List NArith ZArith.\nFrom J5V.lib Require Import Outcome.\nFrom J5V.model Require Import ProtoPrintLit ProtoPrint ProtoPrintFile.\nFrom J5V.model Require Import RulesDecl RulesRead RulesEnum RulesNested RulesInlineEnum RulesReadCorr.",
 		Type:   "c04case",
 		Check:  "c04_check",
 	}
@@ -1160,6 +1160,7 @@ func runC04(cfg *vh.Config) error {
 		caseNo++
 	}
 	runNested(cfg.R.Fork("C04-nested"), cfg, res, cf, &caseNo, &evals)
+	runInlineEnums(cfg.R.Fork("C04-inline-enum"), cfg, res, cf, &caseNo, &evals)
 	res.Evaluations = evals
 	res.Distinct = len(distinct)
 	per := 120
